@@ -57,7 +57,7 @@ def _fval(e, salt, dsalt, special):
             return h((op, a, ctx), dsalt if special(op, a, inside) else salt)
 
         def wrap(op, node):
-            return run(node.a[0], ctx + (op, node.a[1:] and node.a[1]), inside or op != 'offset') * 1.7 + 0.3
+            return run(node.a[0], ctx + (op, node.a[1:] and node.a[1]), inside or op != 'offset')
         from .dsl import ev
         return ev(e, leaf, D, wrap)
     return run(e, (), False)
